@@ -216,7 +216,7 @@ PROPS['C20'] = {
 }
 
 PROPS['C17'] = {
-    'sidecars': ['contracts/C17_identity.py'],
+    'sidecars': ['contracts/C03_sendpaths.py'],      # imports C03_e2e -> C17_identity -> C13_store
     'plugins': ['sqlmodel'],
     'level': 'other',
     'explanation': 'Decision logic under contract, all discharged: LiteIdentityKeyStore.isTrustedIdentity (trusted iff no row or byte-equal '
@@ -227,7 +227,11 @@ PROPS['C17'] = {
                    'AxolotlReceivelayer.handleEncMessage (889 paths): the pinned key is only ever touched when the auto-trust option is on, at '
                    'most one receipt / retry / key fetch per message, a receipt sent from here names the message.  NOT decided: that messaging '
                    'resumes after auto-trust and that no message is encrypted for the new identity (inside python-axolotl: SessionBuilder / '
-                   'SessionCipher under assumed contracts), the send-side error reporting (layer_base.getKeysFor closures): level other.',
+                   'SessionCipher under assumed contracts): level other.  Send side (contracts/C03_sendpaths.py): the continuation of a key '
+                   'fetch (getKeysFor) attempts one session per answered jid with ITS bundle and the auto-trust property with default OFF, '
+                   'a refused jid is absent from the success list it reports (proved for requests of two distinct jids - bounded in the number '
+                   'of requested jids only), and processPlaintextNodeAndSend encrypts for the contact only after a fetch that reported no '
+                   'error: an identity refused on the send side means nothing is encrypted or sent.',
     'assumptions': ['SessionBuilder.processPreKeyBundle raises UntrustedIdentityException(name, key) iff isTrustedIdentity is false and stores '
                     'nothing before (read from the installed python-axolotl source)', 'sqlite3 transactional model (C13)',
                     'the decrypt handlers, send_retry, getKeysFor are opaque events in handleEncMessage; termination of the auto-trust recursion '
@@ -360,7 +364,7 @@ PROPS['C09'] = {
 }
 
 PROPS['C03'] = {
-    'sidecars': ['contracts/C03_e2e.py'],
+    'sidecars': ['contracts/C03_sendpaths.py'],      # imports C03_e2e
     'plugins': ['sqlmodel'],
     'level': 'other',
     'explanation': 'PARTIAL - glue conjuncts only.  The statement is about conversations between 2-4 accounts through a server, all delivery '
@@ -375,11 +379,21 @@ PROPS['C03'] = {
                    'layer; (e) receive side - dispatch (messages to decryption, receipts ignored, everything else up once), the retry counter '
                    '(one receipt per request, count +1 per request for the same message, reset on success), and via C17: duplicate -> one receipt, '
                    'invalid key / message -> one retry, no session -> parked + one key fetch, untrusted identity -> refused.  NOT decided: delivery '
-                   'exactly once across accounts, group fan-out (sendToGroup*), authenticity, the server.',
+                   'exactly once across accounts, authenticity, the server.  (f) send paths (contracts/C03_sendpaths.py): a message stanza to a '
+                   'recipient that is not on skipEncJids always enters the encrypting path; processPlaintextNodeAndSend takes exactly one of '
+                   '{group path, encrypt for the contact, fetch keys first} and sends nothing itself; the key fetch asks for exactly the '
+                   'recipient and its continuation encrypts once (no error) or not at all (error); group path: sendToGroup asks for the '
+                   'participants when there is no sender key yet (one request about this group) and otherwise goes straight to the group send '
+                   '(a retry names the one participant and its counter); ensureSessionsAndSendToGroup fetches keys for exactly the participants '
+                   'without a session and does the group send once, after the answer; sendToGroupWithSessions does one pairwise encryption per '
+                   'participant that needs the sender key, to that participant, the group cipher exactly when this is not a retry, ONE '
+                   'envelope, the participant named only for a single-recipient retry.',
     'assumptions': ['python-axolotl (SessionCipher, GroupCipher, SessionBuilder) is outside the proofs: encrypt / decrypt are opaque events',
                     'random.randint(a, b) is in [a, b]', 'entity constructors (EncProtocolEntity, EncryptedMessageProtocolEntity, retry receipts) are '
-                    'opaque events: what they serialise is C09', 'group sending (sendToGroup, sendToGroupWithSessions, ensureSessionsAndSendToGroup) and '
-                    'handle*Message are not under contract'],
+                    'opaque events: what they serialise is C09', 'handle*Message (decrypt + re-attach) are opaque events',
+                    'getKeysFor continuation: proved for a request of two distinct jids (ListOf(jid, 2)) - bounded in the number of requested jids',
+                    'skipEncJids: a recipient for whom the server returned no key bundle is written to unencrypted by design; outside the '
+                    'conversations the statement quantifies over (every account has uploaded keys)'],
     'technique': 'contract-based deductive verification (PyVC: VCs from the real ast, z3/cvc5) of the glue functions around python-axolotl; the end-to-end statement itself is outside the technique (partial claim)',
 }
 
